@@ -117,4 +117,20 @@ MUTANTS = [
             return None;
         }
     })""", new="        _ => unreachable!(),\n    })"),
+    # ---- U-INTLIT
+    dict(name="intlit-int16-as-int8", prop="C10", units=["u_intlit"], file="crates/compiler/src/typer/check.rs", expect=1,
+         old='                .parse_signed_integer(diagnostics, literal, "int16")\n                .map(|value| Prim::Int16 { value }),', new='                .parse_signed_integer(diagnostics, literal, "int16")\n                .map(|value| Prim::Int8 { value }),'),
+    dict(name="intlit-silent-reject", prop="C10", units=["u_intlit"], file="crates/compiler/src/typer/check.rs", expect=1,
+         old="""        if literal.starts_with('-') {
+            diagnostics.push(Diagnostic::new(
+                diagnostics::Stage::Typer,
+                diagnostics::Severity::Error,
+                format!("Integer literal {} does not fit in {}", literal, ty_name),
+            ));
+            return None;
+        }""", new="""        if literal.starts_with('-') {
+            return None;
+        }"""),
+    dict(name="intlit-uint8-via-signed-harmless", prop="C10", units=["u_intlit"], file="crates/compiler/src/typer/check.rs", expect=0,
+         old='                .parse_unsigned_integer(diagnostics, literal, "uint8")', new='                .parse_signed_integer(diagnostics, literal, "uint8")'),
 ]
